@@ -99,7 +99,7 @@ impl ReturnType for UnaryOperation {
             }
             UnaryOperator::Not | UnaryOperator::UnaryMinus => return_type,
             UnaryOperator::Indirection => indirection::return_type(return_type),
-            UnaryOperator::FunctionCall => return_type.return_type().unwrap(),
+            UnaryOperator::FunctionCall => return_type.return_type().unwrap_or(Type::Never),
             UnaryOperator::Collect => collect::return_type(return_type),
             UnaryOperator::Iter => iter::return_type(return_type),
             UnaryOperator::All
